@@ -25,11 +25,16 @@
      band_solve_backward_error_lemma :  band_solve B b = Ok x  ->  with the factors (au, al, index) decompose computed:
        (U + dU) x = y ,  (L + dL) y = P b ,  L U = P B + dB  (B = the dense twin of the banded matrix), all row-wise, as above,
        provided the computed pivots are nonzero (division by a zero pivot does not panic in the rounded reals).
-   The constants of the triangular phases refer to the COMPUTED factors au, al, index; |L||U| is not compared with |B|
-   (no growth-factor bound), and the three statements are not multiplied out into one (B + dB) x = b. *)
+     band_solve_single_backward_error_lemma (Higham Thm 9.4):  the three statements multiplied out,
+           (B + dB) x = b   row by row (rows listed through the permutation fperm of the computed exchanges),
+           |dB| <= (3 gam N + gam N ^2) |L||U| ,   N >= m1+m2+1 and N >= every c_r
+       L = the unit lower triangular matrix whose row r is fhist r ([Ld]), U = the dense reading of au ([Uc]).  Without
+       exchanges N = m1+m2+1 is admissible: the constant depends on the bandwidth only.
+   The constants refer to the COMPUTED factors au, al, index; |L||U| is not compared with |B| (no growth-factor bound). *)
 From Coq Require Import List Arith Lia Reals Lra Psatz Bool.
 From OV Require Import Base.Panic Base.Arith Base.RoundModel Model.Vector Model.Matrix Model.Banded
-  Proofs.Matrix Proofs.Banded Proofs.BandedLU Proofs.RoundDot Proofs.RoundMatvec Proofs.Round2Band.
+  Proofs.Matrix Proofs.Banded Proofs.BandedLU Proofs.RoundDot Proofs.RoundMatvec Proofs.RoundBacksolve Proofs.RoundSolveLU
+  Proofs.Round2Band.
 Import ListNotations.
 Local Open Scope R_scope.
 
@@ -606,3 +611,312 @@ Proof using u_range fsub_ok fmul_ok fdiv_ok.
 Qed.
 
 End RoundBandSolve.
+
+(* ================================================================ one perturbed system: Higham Theorem 9.4 for the band *)
+
+(* ---------------------------------------------------------------- real-number bookkeeping *)
+Lemma Rsum_window n lo len (f : nat -> R) : (lo + len <= n)%nat ->
+  Rsum n (fun k => if ((lo <=? k) && (k <? lo + len))%nat then f (k - lo)%nat else 0) = Rsum len f.
+Proof.
+  induction len as [|len IH]; intros H.
+  - cbn [Rsum]. apply Rsum_zero. intros k Hk.
+    destruct (Nat.leb_spec lo k); destruct (Nat.ltb_spec k (lo + 0)); cbn [andb]; try reflexivity; lia.
+  - cbn [Rsum]. rewrite <- IH by lia.
+    rewrite <- (Rsum_pick n (lo + len) (f len)) by lia. rewrite <- Rsum_plus. apply Rsum_ext. intros k Hk.
+    destruct (Nat.eqb_spec (lo + len) k) as [<-|Ne].
+    + replace (lo <=? lo + len)%nat with true by (symmetry; apply Nat.leb_le; lia).
+      replace (lo + len <? lo + S len)%nat with true by (symmetry; apply Nat.ltb_lt; lia).
+      rewrite Nat.ltb_irrefl. cbn [andb]. replace (lo + len - lo)%nat with len by lia. ring.
+    + destruct (Nat.leb_spec lo k); cbn [andb]; [|ring].
+      destruct (Nat.ltb_spec k (lo + S len)); destruct (Nat.ltb_spec k (lo + len)); try lia; ring.
+Qed.
+
+(* a row given by a run of c coefficients ending left of the diagonal, and a diagonal entry *)
+Lemma row_dense n r c (coef : nat -> R) (dg : R) (G : nat -> R) : (c <= r)%nat -> (r < n)%nat ->
+  Rsum n (fun k => (if (k <? r)%nat then (if (r - c <=? k)%nat then coef (k - (r - c))%nat else 0)
+                    else if (k =? r)%nat then dg else 0) * G k)
+  = dg * G r + Rsum c (fun t => coef t * G (r - c + t)%nat).
+Proof.
+  intros Hc Hr.
+  rewrite <- (Rsum_window n (r - c) c (fun t => coef t * G (r - c + t)%nat)) by lia.
+  rewrite <- (Rsum_pick n r (dg * G r)) by lia. rewrite <- Rsum_plus. apply Rsum_ext. intros k Hk.
+  destruct (Nat.ltb_spec k r) as [L|L].
+  - destruct (Nat.eqb_spec r k); [lia|].
+    replace (k <? r - c + c)%nat with true by (symmetry; apply Nat.ltb_lt; lia). rewrite andb_true_r.
+    destruct (Nat.leb_spec (r - c) k); [|ring]. replace (r - c + (k - (r - c)))%nat with k by lia. ring.
+  - replace (k <? r - c + c)%nat with false by (symmetry; apply Nat.ltb_ge; lia). rewrite andb_false_r.
+    rewrite (Nat.eqb_sym k r). destruct (Nat.eqb_spec r k) as [->|]; ring.
+Qed.
+
+Lemma lu_term_bound_add (L U dL dU E g : R) :
+  0 <= g -> Rabs dL <= g * Rabs L -> Rabs dU <= g * Rabs U -> Rabs E <= g * (Rabs L * Rabs U) ->
+  Rabs ((L + dL) * (U + dU) - (L * U + E)) <= (3 * g + g * g) * (Rabs L * Rabs U).
+Proof.
+  intros Hg HL HU HE.
+  replace ((L + dL) * (U + dU) - (L * U + E)) with (- E + dL * U + L * dU + dL * dU) by ring.
+  eapply Rle_trans; [apply Rabs_triang|]. eapply Rle_trans; [apply Rplus_le_compat_r, Rabs_triang|].
+  eapply Rle_trans; [apply Rplus_le_compat_r, Rplus_le_compat_r, Rabs_triang|].
+  rewrite Rabs_Ropp, !Rabs_mult.
+  pose proof (Rabs_pos L). pose proof (Rabs_pos U). pose proof (Rabs_pos dL). pose proof (Rabs_pos dU).
+  assert (PLU : 0 <= Rabs L * Rabs U) by (apply Rmult_le_pos; assumption).
+  assert (Rabs dL * Rabs U <= g * (Rabs L * Rabs U)).
+  { rewrite <- Rmult_assoc. apply Rmult_le_compat_r; assumption. }
+  assert (Rabs L * Rabs dU <= g * (Rabs L * Rabs U)).
+  { replace (g * (Rabs L * Rabs U)) with (Rabs L * (g * Rabs U)) by ring. apply Rmult_le_compat_l; assumption. }
+  assert (Rabs dL * Rabs dU <= g * g * (Rabs L * Rabs U)).
+  { apply Rle_trans with ((g * Rabs L) * (g * Rabs U)); [|right; ring].
+    apply Rmult_le_compat; assumption. }
+  lra.
+Qed.
+
+(* (L + dL) y = b', (U + dU) x = y, L U = B + (entrywise small)  ==>  (B + dB) x = b' *)
+Lemma lu_assemble n (L U dL dU Bm : nat -> nat -> R) (x y bb : nat -> R) (g : R) :
+  0 <= g ->
+  (forall r k, (r < n)%nat -> (k < n)%nat -> Rabs (dL r k) <= g * Rabs (L r k)) ->
+  (forall k c, (k < n)%nat -> (c < n)%nat -> Rabs (dU k c) <= g * Rabs (U k c)) ->
+  (forall r, (r < n)%nat -> Rsum n (fun k => (L r k + dL r k) * y k) = bb r) ->
+  (forall k, (k < n)%nat -> Rsum n (fun c => (U k c + dU k c) * x c) = y k) ->
+  (forall r c, (r < n)%nat -> (c < n)%nat ->
+     exists E : nat -> R, (forall k, (k < n)%nat -> Rabs (E k) <= g * (Rabs (L r k) * Rabs (U k c))) /\
+       Bm r c = Rsum n (fun k => L r k * U k c + E k)) ->
+  exists dB : nat -> nat -> R,
+    (forall r c, (r < n)%nat -> (c < n)%nat ->
+       Rabs (dB r c) <= (3 * g + g * g) * Rsum n (fun k => Rabs (L r k) * Rabs (U k c))) /\
+    forall r, (r < n)%nat -> Rsum n (fun c => (Bm r c + dB r c) * x c) = bb r.
+Proof.
+  intros Hg HdL HdU RowsL RowsU Hfac.
+  exists (fun r c => Rsum n (fun k => (L r k + dL r k) * (U k c + dU k c)) - Bm r c). split.
+  - intros r c Hr Hc. destruct (Hfac r c Hr Hc) as (E & HE & Ef). rewrite Ef, <- Rsum_minus.
+    eapply Rle_trans; [apply Rsum_abs|]. rewrite <- Rsum_scal. apply Rsum_le. intros k Hk.
+    apply lu_term_bound_add; [exact Hg|now apply HdL|now apply HdU|now apply HE].
+  - intros r Hr.
+    rewrite (Rsum_ext n _ (fun c => Rsum n (fun k => (L r k + dL r k) * ((U k c + dU k c) * x c)))).
+    2:{ intros c Hc. replace (Bm r c + (Rsum n (fun k => (L r k + dL r k) * (U k c + dU k c)) - Bm r c))
+          with (Rsum n (fun k => (L r k + dL r k) * (U k c + dU k c))) by ring.
+        rewrite Rmult_comm, <- Rsum_scal. apply Rsum_ext. intros k Hk. ring. }
+    rewrite <- (Rsum_swap n n (fun k c => (L r k + dL r k) * ((U k c + dU k c) * x c))).
+    rewrite (Rsum_ext n _ (fun k => (L r k + dL r k) * y k)).
+    2:{ intros k Hk. rewrite Rsum_scal. f_equal. exact (RowsU k Hk). }
+    exact (RowsL r Hr).
+Qed.
+
+(* row r of the unit lower triangular factor, from its history (consecutive stages ending at r - 1) *)
+Definition Ld (h : list (R * nat)) (r k : nat) : R :=
+  if (k <? r)%nat then (if (r - length h <=? k)%nat then fst (nth (k - (r - length h)) h (0, 0%nat)) else 0)
+  else if (k =? r)%nat then 1 else 0.
+
+Section RoundBandSingle.
+Variable u : R.
+Hypothesis u_range : 0 <= u < 1.
+Variables fadd fsub fmul fdiv : R -> R -> R.
+Hypothesis fsub_ok : forall x y, exists d, Rabs d <= u /\ fsub x y = (x - y) * (1 + d).
+Hypothesis fmul_ok : forall x y, exists d, Rabs d <= u /\ fmul x y = x * y * (1 + d).
+Hypothesis fdiv_ok : forall x y, y <> 0 -> exists d, Rabs d <= u /\ fdiv x y = x / y * (1 + d).
+
+Notation AR := (ARm fadd fsub fmul fdiv).
+Notation gam := (gam u).
+Notation Uc := (Uc fadd fsub fmul fdiv).
+
+Lemma gam_le_N (a N : nat) : (a <= N)%nat -> INR N * u < 1 -> gam a <= gam N /\ INR a * u < 1.
+Proof using u_range.
+  intros Ha HN. split; [now apply (gam_mono u u_range)|].
+  pose proof (le_INR _ _ Ha) as Ha'. destruct u_range as [U0 _].
+  assert (0 <= (INR N - INR a) * u) by (apply Rmult_le_pos; lra). lra.
+Qed.
+
+(* Higham Theorem 9.4 for the banded solver: one perturbed system *)
+Theorem band_solve_single_backward_error_lemma (B : banded AR) (b x : list R) (N : nat) :
+  wfB B -> length b = bn B -> (bm1 B <= bn B)%nat -> band_solve B b = Ok x ->
+  exists (au al : matrix AR) (index : list nat),
+    (exists d : R, decompose_gen (A := AR) false B (compact B) (mat_new (A := AR) (bn B) (bm1 B) 0) (repeat 0%nat (bn B))
+                   = Ok (au, al, index, d)) /\
+    ((forall k, (k < bn B)%nat -> mat_at (A := AR) au (bm1 B + bm2 B + 1) k 0 <> 0) ->
+     (bm1 B + bm2 B + 1 <= N)%nat ->
+     (forall r, (r < bn B)%nat -> (length (fhist (A := AR) (bn B) (bm1 B) al index (bn B) r) <= N)%nat) ->
+     INR N * u < 1 ->
+     (forall r, (r < bn B)%nat -> (fperm index (bn B) r < bn B)%nat) /\
+     (forall r r', fperm index (bn B) r = fperm index (bn B) r' -> r = r') /\
+     exists dB : nat -> nat -> R,
+       (forall r c, (r < bn B)%nat -> (c < bn B)%nat ->
+          Rabs (dB r c) <= (3 * gam N + gam N * gam N)
+                           * Rsum (bn B) (fun k => Rabs (Ld (fhist (A := AR) (bn B) (bm1 B) al index (bn B) r) r k)
+                                                   * Rabs (Uc au (bm1 B + bm2 B + 1) k c))) /\
+       forall r, (r < bn B)%nat ->
+         Rsum (bn B) (fun c => (dense_entry B (fperm index (bn B) r) c + dB r c) * nth c x 0)
+         = nth (fperm index (bn B) r) b 0).
+Proof using u_range fsub_ok fmul_ok fdiv_ok.
+  intros Hwf Hb Hm1 E.
+  destruct (band_solve_phases_lemma (A := AR) B b x (Req_zero_eqb fadd fsub fmul fdiv) Hwf Hb Hm1 E)
+    as (au0 & au & al & index & d & y & l1 & l2 & l3 & Es & El & Ef & Eb & Hc0 & Hc & Hcl & Ly & Hix & HD).
+  set (n := bn B) in *. set (m1 := bm1 B) in *. set (mm := (bm1 B + bm2 B + 1)%nat) in *.
+  assert (Hmm : (1 <= mm)%nat) by (unfold mm; lia).
+  exists au, al, index. split.
+  { exists d. unfold decompose_gen. fold m1 mm n. change (@zero AR) with 0 in Es, El.
+    rewrite Es. cbn [bind]. change (@one AR) with 1 in El. change (@zero AR) with 0. change (@one AR) with 1.
+    rewrite El. reflexivity. }
+  intros Hpiv HmmN HcN HN.
+  assert (Hix' : forall k, (k < n)%nat -> (k + 1 <= nth k index 0%nat)%nat) by (intros k Hk; apply Hix; exact Hk).
+  pose proof (gam_nonneg u u_range N HN) as Hg.
+  split; [intros r Hr; exact (proj1 (band_history_origin_lemma (A := AR) n m1 al index r Hix Hr))|].
+  split; [intros r r'; apply fperm_inj|].
+  (* the three row-wise statements *)
+  destruct (gam_le_N mm N HmmN HN) as (GmmN & Hum).
+  destruct (band_backsolve_backward_error_lemma u u_range fadd fsub fmul fdiv fsub_ok fmul_ok fdiv_ok
+              au mm n y x l3 Hc Hmm Ly Hum Hpiv Eb) as (Lx & dU & HdU & RowsU).
+  destruct (band_forward_backward_error_lemma u u_range fadd fsub fmul fdiv fsub_ok fmul_ok
+              al index n m1 b y l2 Hcl Hm1 Hb Hix' Ef) as (_ & HF).
+  pose (hh := fun r => (fhist (A := AR) n m1 al index n r : list (R * nat))).
+  pose (cc := fun r => length (hh r)).
+  assert (Hshape : forall r, (r < n)%nat -> (cc r <= r)%nat /\
+            forall t, (t < cc r)%nat -> snd (nth t (hh r) (0, 0%nat)) = (r - cc r + t)%nat).
+  { intros r Hr. exact (band_history_shape_lemma (A := AR) n m1 al index r Hix Hr). }
+  destruct (fin_choice (0, fun _ : nat => 0)
+              (fun r (F : R * (nat -> R)) =>
+                 Rabs (fst F) <= gam (cc r) /\
+                 (forall t, (t < cc r)%nat -> Rabs (snd F t) <= gam (cc r) * Rabs (fst (nth t (hh r) (0, 0%nat)))) /\
+                 (1 + fst F) * nth r y 0
+                 + Rsum (cc r) (fun t => (fst (nth t (hh r) (0, 0%nat)) + snd F t) * nth (snd (nth t (hh r) (0, 0%nat))) y 0)
+                 = nth (fperm index n r) b 0) n) as (FL & HFL).
+  { intros r Hr. destruct (HF r Hr) as (_ & _ & HF3). cbn zeta in HF3.
+    destruct (HF3 (proj2 (gam_le_N _ N (HcN r Hr) HN))) as (dd & dL & H1 & H2 & H3).
+    exists (dd, dL). cbn [fst snd]. split; [exact H1|]. split; [exact H2|exact H3]. }
+  pose (L := fun r k => Ld (hh r) r k).
+  pose (dL := fun r k => if (k <? r)%nat then (if (r - cc r <=? k)%nat then snd (FL r) (k - (r - cc r))%nat else 0)
+                         else if (k =? r)%nat then fst (FL r) else 0).
+  pose (U := fun k c => Uc au mm k c).
+  pose (dUd := fun k c => if ((k <=? c) && (c <? k + bwin mm n k))%nat then dU k (c - k)%nat else 0).
+  destruct (lu_assemble n L U dL dUd (fun r c => dense_entry B (fperm index n r) c)
+              (fun c => nth c x 0) (fun k => nth k y 0) (fun r => nth (fperm index n r) b 0) (gam N) Hg)
+    as (dB & HdB & Heq).
+  - (* |dL| *)
+    intros r k Hr Hk. unfold dL, L, Ld. fold (cc r).
+    destruct (HFL r Hr) as (H1 & H2 & _).
+    assert (GN : gam (cc r) <= gam N) by exact (proj1 (gam_le_N _ N (HcN r Hr) HN)).
+    destruct (Nat.ltb_spec k r).
+    + destruct (Nat.leb_spec (r - cc r) k).
+      * eapply Rle_trans; [apply H2; destruct (Hshape r Hr); lia|].
+        apply Rmult_le_compat_r; [apply Rabs_pos|exact GN].
+      * rewrite Rabs_R0. pose proof (Rabs_pos 0). nra.
+    + destruct (Nat.eqb_spec k r).
+      * rewrite Rabs_R1, Rmult_1_r. lra.
+      * rewrite Rabs_R0. lra.
+  - (* |dU| *)
+    intros k c Hk Hc'. unfold dUd, U, Uc.
+    destruct (Nat.leb_spec k c) as [L1|L1]; cbn [andb]; [|rewrite Rabs_R0; pose proof (Rabs_pos 0); nra].
+    destruct (Nat.ltb_spec c (k + bwin mm n k)) as [L2|L2].
+    + assert (L3 : (c - k < bwin mm n k)%nat) by lia.
+      replace (c - k <? mm)%nat with true by (symmetry; apply Nat.ltb_lt; unfold bwin in L3; lia).
+      eapply Rle_trans; [apply (HdU k (c - k)%nat Hk L3)|].
+      apply Rmult_le_compat_r; [apply Rabs_pos|]. apply (gam_mono u u_range); [unfold bwin; lia|exact HN].
+    + destruct (c - k <? mm)%nat; rewrite Rabs_R0; pose proof (Rabs_pos (mat_at (A := AR) au mm k (c - k)));
+        pose proof (Rabs_pos 0); nra.
+  - (* (L + dL) y = P b *)
+    intros r Hr. destruct (HFL r Hr) as (_ & _ & H3). destruct (Hshape r Hr) as (Hcr & Htag).
+    rewrite <- H3.
+    pose (coef := fun t => fst (nth t (hh r) (0, 0%nat)) + snd (FL r) t). pose (G := fun k => nth k y 0).
+    rewrite (Rsum_ext n _ (fun k => (if (k <? r)%nat
+                                     then (if (r - cc r <=? k)%nat then coef (k - (r - cc r))%nat else 0)
+                                     else if (k =? r)%nat then 1 + fst (FL r) else 0) * G k)).
+    2:{ intros k Hk. unfold L, Ld, dL, coef, G. fold (cc r).
+        destruct (k <? r)%nat; [destruct (r - cc r <=? k)%nat; ring|destruct (k =? r)%nat; ring]. }
+    rewrite (row_dense n r (cc r) coef (1 + fst (FL r)) G Hcr Hr). unfold coef, G. f_equal.
+    apply Rsum_ext. intros t Ht. now rewrite Htag by exact Ht.
+  - (* (U + dU) x = y *)
+    intros k Hk. cbv beta. etransitivity; [|exact (RowsU k Hk)].
+    etransitivity; [|apply (Rsum_window n k (bwin mm n k)
+                              (fun s => (mat_at (A := AR) au mm k s + dU k s) * nth (k + s) x 0)); unfold bwin; lia].
+    apply Rsum_ext. intros c Hc'. unfold U, dUd, Uc.
+    destruct (Nat.leb_spec k c) as [L1|L1]; cbn [andb]; [|ring].
+    destruct (Nat.ltb_spec c (k + bwin mm n k)) as [L2|L2].
+    + replace (c - k <? mm)%nat with true by (symmetry; apply Nat.ltb_lt; unfold bwin in L2; lia).
+      replace (k + (c - k))%nat with c by lia. ring.
+    + replace (c - k <? mm)%nat with false by (symmetry; apply Nat.ltb_ge; unfold bwin in L2; lia). ring.
+  - (* L U = P B + small, entry by entry *)
+    intros r c Hr Hc'. cbv beta. destruct (Hshape r Hr) as (Hcr & Htag).
+    assert (GN : gam (cc r) <= gam N) by exact (proj1 (gam_le_N _ N (HcN r Hr) HN)).
+    assert (Hur : INR (cc r) * u < 1) by exact (proj2 (gam_le_N _ N (HcN r Hr) HN)).
+    assert (HcrN : (cc r <= N)%nat) by exact (HcN r Hr).
+    pose proof (band_lu_backward_error_lemma u u_range fadd fsub fmul fdiv fsub_ok fmul_ok fdiv_ok
+                  n mm m1 au0 (mat_new (A := AR) n m1 0) (repeat 0%nat n) 1 au al index d l1 Hc0 eq_refl Hmm Hm1 El Hpiv r Hr Hur)
+      as (HU & HL).
+    destruct (band_history_origin_lemma (A := AR) n m1 al index r Hix Hr) as (_ & Or1 & Or2').
+    assert (Or2 : (r - cc r = 0 \/ r - cc r + m1 <= fperm index n r)%nat) by exact Or2'. clear Or2'.
+    assert (Uz : forall k, (c < k)%nat -> U k c = 0).
+    { intros k Hk. unfold U, Uc. replace (k <=? c)%nat with false by (symmetry; apply Nat.leb_gt; lia). reflexivity. }
+    assert (Lz : forall k, (r < k)%nat -> L r k = 0).
+    { intros k Hk. unfold L, Ld. replace (k <? r)%nat with false by (symmetry; apply Nat.ltb_ge; lia).
+      destruct (Nat.eqb_spec k r); [lia|reflexivity]. }
+    assert (Lz2 : forall k, (k < r - cc r)%nat -> L r k = 0).
+    { intros k Hk. unfold L, Ld. fold (cc r). replace (k <? r)%nat with true by (symmetry; apply Nat.ltb_lt; lia).
+      replace (r - cc r <=? k)%nat with false by (symmetry; apply Nat.leb_gt; lia). reflexivity. }
+    destruct (Nat.lt_ge_cases c r) as [Cl|Cr]; [destruct (Nat.lt_ge_cases c (r - cc r)) as [Cl2|Cl2]|
+                                                destruct (Nat.lt_ge_cases c (r + mm)) as [Cr2|Cr2]].
+    + (* left of the history: structural zero *)
+      exists (fun _ => 0). split; [intros k Hk; rewrite Rabs_R0; apply Rmult_le_pos; [exact Hg|apply Rmult_le_pos; apply Rabs_pos]|].
+      rewrite Rsum_zero.
+      * rewrite <- HD. unfold D0. destruct Or2 as [Z|G]; [lia|].
+        replace (fperm index n r - m1 <=? c)%nat with false by (symmetry; apply Nat.leb_gt; lia). reflexivity.
+      * intros k Hk. destruct (Nat.lt_ge_cases k (r - cc r)); [rewrite Lz2 by lia; ring|rewrite Uz by lia; ring].
+    + (* a stage of the history: the multiplier equation *)
+      set (t := (c - (r - cc r))%nat).
+      assert (Ht : (t < cc r)%nat) by (unfold t; lia).
+      destruct (HL t Ht) as (dLt & B1 & B2). fold (hh r) in B1, B2.
+      rewrite (Htag t Ht) in B2. replace (r - cc r + t)%nat with c in B2 by (unfold t; lia).
+      exists (fun k => if ((r - cc r <=? k) && (k <? r - cc r + S t))%nat then dLt (k - (r - cc r))%nat * U k c else 0).
+      split.
+      * intros k Hk. destruct (Nat.leb_spec (r - cc r) k); cbn [andb];
+          [|rewrite Rabs_R0; apply Rmult_le_pos; [exact Hg|apply Rmult_le_pos; apply Rabs_pos]].
+        destruct (Nat.ltb_spec k (r - cc r + S t));
+          [|rewrite Rabs_R0; apply Rmult_le_pos; [exact Hg|apply Rmult_le_pos; apply Rabs_pos]].
+        rewrite Rabs_mult, <- Rmult_assoc. apply Rmult_le_compat_r; [apply Rabs_pos|].
+        unfold L, Ld. fold (cc r). replace (k <? r)%nat with true by (symmetry; apply Nat.ltb_lt; unfold t in *; lia).
+        replace (r - cc r <=? k)%nat with true by (symmetry; apply Nat.leb_le; lia).
+        eapply Rle_trans; [apply (B1 (k - (r - cc r))%nat); lia|].
+        apply Rmult_le_compat_r; [apply Rabs_pos|]. apply (gam_mono u u_range); [lia|exact HN].
+      * etransitivity; [symmetry; apply HD|]. etransitivity; [symmetry; exact B2|].
+        rewrite <- (Rsum_window n (r - cc r) (S t)
+                      (fun t' => (fst (nth t' (hh r) (0, 0%nat)) + dLt t') * Uc au mm (snd (nth t' (hh r) (0, 0%nat))) c))
+          by (unfold t; lia).
+        apply Rsum_ext. intros k Hk.
+        destruct (Nat.leb_spec (r - cc r) k); cbn [andb].
+        -- destruct (Nat.ltb_spec k (r - cc r + S t)).
+           ++ rewrite Htag by (unfold t in *; lia). replace (r - cc r + (k - (r - cc r)))%nat with k by lia.
+              unfold L, Ld, U. fold (cc r). replace (k <? r)%nat with true by (symmetry; apply Nat.ltb_lt; unfold t in *; lia).
+              replace (r - cc r <=? k)%nat with true by (symmetry; apply Nat.leb_le; lia). ring.
+           ++ rewrite Uz by (unfold t in *; lia). ring.
+        -- rewrite Lz2 by lia. ring.
+    + (* the stored part of row r of U *)
+      destruct (HU (c - r)%nat ltac:(lia)) as (dd & dLu & B1 & B2 & B3). fold (hh r) (cc r) in B1, B2, B3.
+      replace (r + (c - r))%nat with c in B3 by lia.
+      exists (fun k => (if (k <? r)%nat then (if (r - cc r <=? k)%nat then dLu (k - (r - cc r))%nat else 0)
+                        else if (k =? r)%nat then dd else 0) * U k c).
+      split.
+      * intros k Hk. rewrite Rabs_mult, <- Rmult_assoc. apply Rmult_le_compat_r; [apply Rabs_pos|].
+        unfold L, Ld. fold (cc r). destruct (Nat.ltb_spec k r).
+        -- destruct (Nat.leb_spec (r - cc r) k); [|rewrite Rabs_R0; pose proof (Rabs_pos 0); nra].
+           eapply Rle_trans; [apply B2; lia|]. apply Rmult_le_compat_r; [apply Rabs_pos|exact GN].
+        -- destruct (Nat.eqb_spec k r); [rewrite Rabs_R1, Rmult_1_r; lra|rewrite Rabs_R0; lra].
+      * etransitivity; [symmetry; apply HD|]. etransitivity; [symmetry; exact B3|].
+        pose (coef := fun t => fst (nth t (hh r) (0, 0%nat)) + dLu t). pose (G := fun k => U k c).
+        rewrite (Rsum_ext n _ (fun k => (if (k <? r)%nat
+                                         then (if (r - cc r <=? k)%nat then coef (k - (r - cc r))%nat else 0)
+                                         else if (k =? r)%nat then 1 + dd else 0) * G k)).
+        2:{ intros k Hk. unfold L, Ld, coef, G. fold (cc r).
+            destruct (k <? r)%nat; [destruct (r - cc r <=? k)%nat; ring|destruct (k =? r)%nat; ring]. }
+        rewrite (row_dense n r (cc r) coef (1 + dd) G Hcr Hr). unfold coef, G. f_equal.
+        -- unfold U, Uc. replace (r <=? c)%nat with true by (symmetry; apply Nat.leb_le; lia).
+           replace (c - r <? mm)%nat with true by (symmetry; apply Nat.ltb_lt; lia). reflexivity.
+        -- apply Rsum_ext. intros t Ht. now rewrite Htag by exact Ht.
+    + (* right of the stored part: structural zero *)
+      exists (fun _ => 0). split; [intros k Hk; rewrite Rabs_R0; apply Rmult_le_pos; [exact Hg|apply Rmult_le_pos; apply Rabs_pos]|].
+      rewrite Rsum_zero.
+      * rewrite <- HD. unfold D0. change (m1 + bm2 B + 1)%nat with mm.
+        replace (c - (fperm index n r - m1) <? mm)%nat with false by (symmetry; apply Nat.ltb_ge; unfold mm in *; lia).
+        now rewrite andb_false_r.
+      * intros k Hk. destruct (Nat.le_gt_cases k r) as [Kr|Kr]; [|rewrite Lz by lia; ring].
+        unfold U, Uc. replace (c - k <? mm)%nat with false by (symmetry; apply Nat.ltb_ge; lia).
+        rewrite andb_false_r. ring.
+  - exists dB. split; [exact HdB|exact Heq].
+Qed.
+
+End RoundBandSingle.
